@@ -176,11 +176,14 @@ func (s *Sweeper) sweep(plugin string) ([]*Run, string) {
 			run := s.one(plugin, newFn, cfg, or)
 			run.Script = append([]int{}, or.script...)
 			if run.Outcome == "accepted" {
-				if seenText[run.Text] {
+				// a run repeats an earlier one only if the text AND what the path established about the types behind its holes
+				// are the same: the same `return %#v` is right for a basic value and wrong for a map of structs
+				key := run.Text + "\x00" + typeFingerprint(run)
+				if seenText[key] {
 					run.Dup = true
 					run.Lines = nil
 				}
-				seenText[run.Text] = true
+				seenText[key] = true
 			}
 			all = append(all, run)
 			if !or.next() {
@@ -375,4 +378,46 @@ func cmdResiduals(args []string) {
 			count["rejected"], count["generror"], count["panic"], count["undecided"], s.over[p])
 		fmt.Printf("   per config: %v\n", perCfg)
 	}
+}
+
+// typeFingerprint: the kinds (to depth 3) of the types behind a run's TYPE holes and the answers its predicates got.
+func typeFingerprint(run *Run) string {
+	var ids []string
+	for id, h := range run.Holes {
+		if h.Kind == "TYPE" {
+			ids = append(ids, id)
+		}
+	}
+	sort.Strings(ids)
+	var kind func(v Value, depth int) string
+	kind = func(v Value, depth int) string {
+		o, ok := v.(*VOpaque)
+		if !ok || o == nil {
+			return "-"
+		}
+		k := kindOfVal(o)
+		if depth >= 3 {
+			return k
+		}
+		u := underlyingVal(o)
+		out := k
+		if u != nil {
+			for _, a := range []string{"Elem", "Key"} {
+				if c, ok := u.attrs[a]; ok {
+					out += "[" + a + ":" + kind(c, depth+1) + "]"
+				}
+			}
+		}
+		return out
+	}
+	var b strings.Builder
+	for _, id := range ids {
+		b.WriteString(id + "=" + kind(run.Holes[id].Val, 0) + ";")
+	}
+	for _, d := range run.Decisions {
+		if strings.HasPrefix(d.Sym, "B:pred:") {
+			b.WriteString(fmt.Sprintf("%s=%d;", d.Sym, d.Choice))
+		}
+	}
+	return b.String()
 }
